@@ -340,6 +340,15 @@ def run_multiple(chk, want):
                 want_o = 'P %s %s | %s' % (f2b(itr['sop0']), f2b(sop1), rows_line(coded[2 * h:]))
                 if o != want_o:
                     bad_sop.append((seqs, method, kw, log, itr['gw'], o[:160], want_o[:160]))
+                    # the model's scores are computed from the scorer's entries and the two matrices alone: they are an independent
+                    # statement of the property. If the pass kept the candidate although it scores lower, that is the failing input.
+                    try:
+                        m0, m1 = common.b2f(o.split()[1]), common.b2f(o.split()[2])
+                        if itr['after'] == cand and itr['after'] != itr['before'] and m1 < m0 - 1e-12:
+                            fails.append((seqs, method, kw, log, '_iter pass (gap_weight=%r) kept an alignment whose sum-of-pairs score, recomputed from the scorer and '
+                                          'the matrix, is lower: %r -> %r (the library itself reports %r -> %r)' % (itr['gw'], m0, m1, itr['sop0'], sop1)))
+                    except Exception:  # noqa
+                        pass
             except Exception as ex:  # noqa
                 bad_sop.append((seqs, method, kw, log, 'tie raised %s: %s' % (type(ex).__name__, str(ex)[:80]), '', ''))
         if want == 'C11' and it % 3 == 0:
